@@ -6,41 +6,6 @@ import (
 	"cosmossdk.io/math"
 )
 
-// c09Aggregates builds 1..2 aggregates whose reporters are drawn from a pool of three distinct addresses.
-// Returns the aggregates, whether some reporter occurs twice with different powers, and the pool.
-func c09Aggregates(maxAgg, maxRep int) ([]*types.Aggregate, bool, []string) {
-	pool := []string{ndBech32("repA"), ndBech32("repB"), ndBech32("repC")}
-	ndAssume(pool[0] != pool[1] && pool[0] != pool[2] && pool[1] != pool[2])
-	nAgg := 1 + ndLen("nagg", maxAgg-1)
-	aggs := make([]*types.Aggregate, nAgg)
-	firstPower := []uint64{0, 0, 0}
-	seen := []bool{false, false, false}
-	differing := false
-	for a := 0; a < nAgg; a++ {
-		nRep := 1 + ndLen(nm("nrep", a), maxRep-1)
-		reps := make([]*types.AggregateReporter, nRep)
-		used := []bool{false, false, false}
-		for r := 0; r < nRep; r++ {
-			who := ndPick(nm("who", a*4+r), 3)
-			if used[who] {
-				ndAssume(false) // a reporter appears at most once per aggregate
-			}
-			used[who] = true
-			p := ndUint64(nm("pow", a*4+r))
-			ndAssume(p >= 1 && p <= 1000000000)
-			if seen[who] {
-				differing = ndOr(differing, firstPower[who] != p)
-			} else {
-				seen[who] = true
-				firstPower[who] = p
-			}
-			reps[r] = &types.AggregateReporter{Reporter: pool[who], Power: p, BlockNumber: uint64(10 + a)}
-		}
-		aggs[a] = &types.Aggregate{QueryId: ndHash(nm("qid", a)), Reporters: reps}
-	}
-	return aggs, differing, pool
-}
-
 func c09Bounds() (int, int) {
 	if ndTier() > 0 {
 		return 2, 3
